@@ -17,6 +17,8 @@ mismatch alone names the key; else the first aspect whose removal makes the mism
 import math
 from collections import Counter, defaultdict
 
+import sys
+
 import numpy as np
 
 from .. import ops, snap
@@ -61,9 +63,13 @@ W = "weight"
 NODE_STR = ["a", "b", "c", "d", "e", "n1", "n10", "n2", "x", "yy", "B", "_z"]
 EDGE_STR = ["e0", "e1", "e2", "f", "g", "h", "e10", "zz", "q", "r", "E", "10"]
 KIND_TAG = {"perm": "permuted", "gap": "gapped", "str": "strings", "mixed": "mixed", "bigint": "bigints", "float": "floats",
-            "npint": "numpy", "rtstr": "rtstrings", "tuple": "tuples"}
-NODE_KINDS = ("perm", "gap", "str", "mixed", "bigint", "float", "npint", "rtstr", "tuple")
-EDGE_KINDS = ("perm", "gap", "str", "mixed", "bigint", "float", "npint", "rtstr", "tuple")
+            "npint": "numpy", "rtstr": "rtstrings", "tuple": "tuples", "hashtwin": "hashtwins"}
+NODE_KINDS = ("perm", "gap", "str", "mixed", "bigint", "float", "npint", "rtstr", "tuple", "hashtwin")
+EDGE_KINDS = ("perm", "gap", "str", "mixed", "bigint", "float", "npint", "rtstr", "tuple", "hashtwin")
+# unequal labels with equal hashes: hash(-1) == hash(-2), and hash(i + (2**61 - 1)) == hash(i) on 64-bit CPython - anything
+# keyed or ordered by hash(label) (or by the hash of a set of labels) confuses them
+_HM = sys.hash_info.modulus
+_TWINS = [-1, -2] + [v for i in range(0, 7) for v in (i, _HM + i)]
 _BIG = list(range(1001, 1400)) + [2**33 + i for i in range(20)] + [-1500 - i for i in range(20)]
 _FLOATS = [0.5, 1.5, 2.0, 3.0, -1.0, 2.25, 7.0, 10.0, 0.1, 1000.0, -0.75, 4.0, 1e-3, 6.5]
 _RTSTR = ["node_1", "node_10", "node_2", "alpha", "beta", "Gamma", "x y", "\u00fc-1", "10", "007", "n.a", "__", "1e3", "None"]
@@ -86,6 +92,8 @@ def _pool(kind, role, rng):
         return _RTSTR
     if kind == "tuple":
         return _TUPLES
+    if kind == "hashtwin":
+        return _TWINS
     raise ValueError(kind)
 
 
